@@ -37,10 +37,10 @@ RULE = ('Hypothesis-generated cases = (backend configuration, short prior histor
         'smaller / clearly larger content to the SAME addresses (also legend and progress file) - everything that was '
         'visible right after the crash must read the same afterwards, the follow-up addresses exactly their new bytes - and (c) repeats the '
         'same store (must succeed despite stale lock / temp files and yield the new content).  Continuations run on '
-        'every crash state (counted in notes).  One evaluation = one crash state.  A crash state is '
+        'every crash state ((b) and the larger variant on every second crash index; counted in notes).  One evaluation = one crash state.  A crash state is '
         'non-trivial when the crash index lies strictly inside the op list (or is a torn write) of a case whose '
         'store overwrites existing content or writes into an already existing bundle; distinct = distinct '
-        '(case, crash index, cut).  Byte-granular cuts are explored too but only counted (beyond-model notes).')
+        '(case, crash index, cut).  Byte-granular cuts are explored too (every 4th case) but only counted (beyond-model notes).')
 ASSUMPTIONS = [
     'crash model = process death: completed syscalls persist in order, no reordering, all descriptors closed; the '
     'syscall in flight is absent or, for write, applied up to a 4096-byte file-offset boundary',
@@ -676,7 +676,7 @@ def _v1_entry_split(r, k, cut):
     return out
 
 
-def check_state(r, state_dir, k, cut, stats, tolerate=True, restore=True):
+def check_state(r, state_dir, k, cut, stats, tolerate=True, restore=True, all_variants=False):
     """oracle on one post-crash directory; returns a Violation or None"""
     be, case = r.be, r.case
     if cut is not None:
@@ -749,6 +749,11 @@ def check_state(r, state_dir, k, cut, stats, tolerate=True, restore=True):
         # --- post-crash continuation: a restarted process stores something ELSE first.  What was visible right
         # after the crash must not change or vanish because of it.
         for variant, fop, faddr in r.followups:
+            # cost: 'neighbour' and 'same-address-smaller' run on every crash state, the other two on every second
+            # crash index (all variants when a single crash point is replayed); counted in notes
+            if not all_variants and ((variant == 'prior-overwrite' and k % 2) or
+                                     (variant == 'same-address-larger' and not k % 2)):
+                continue
             cdir = state_dir + '-' + variant
             fsrec.copy_tree(state_dir, cdir)
             try:
@@ -838,7 +843,7 @@ def beyond_model_points(r, cap=6):
     return pts
 
 
-def run_case(case, stats, tolerate=True, beyond=True):
+def run_case(case, stats, tolerate=True, beyond=True, all_variants=False):
     root = scratch_root()
     try:
         r = record_case(case, root)
@@ -884,7 +889,7 @@ def run_case(case, stats, tolerate=True, beyond=True):
             n += 1
             fsrec.materialise(r.ops, r.pre, d, k, cut)
             try:
-                v = check_state(r, d, k, cut, stats, tolerate=tolerate)
+                v = check_state(r, d, k, cut, stats, tolerate=tolerate, all_variants=all_variants or bool(only))
             finally:
                 shutil.rmtree(d, ignore_errors=True)
             inside = cut is not None or 0 < k < len(r.ops)
@@ -896,8 +901,8 @@ def run_case(case, stats, tolerate=True, beyond=True):
                        and k == len(r.ops) // 2 else None)
             if v is not None:
                 return v
-        if beyond and not only:
-            # byte-granular cuts: statistics only, never a verdict
+        if beyond and not only and int(ckey, 16) % 4 == 0:
+            # byte-granular cuts: statistics only, never a verdict (every 4th case)
             for k, cut in beyond_model_points(r):
                 d = os.path.join(root, 'b%d' % n)
                 n += 1
@@ -1019,7 +1024,7 @@ def strace_part(seed, st_, n=6):
 
 def random_shard(shard, nshards, seed, tier):
     st_ = core.Stats()
-    n = (3200 if tier == 'quick' else 64000) // nshards
+    n = (2800 if tier == 'quick' else 64000) // nshards
     core.hyp_search(cases(), check_case, st_, max_examples=n, seed=seed, max_signatures=2 if tier == 'quick' else 4)
     if tier == 'thorough' and shard < 8:
         strace_part(seed, st_)
@@ -1040,5 +1045,5 @@ def normalise_case(case):
 
 def replay(case, stats):
     case = normalise_case(case)
-    v = run_case(case, stats, tolerate=False, beyond=False)
+    v = run_case(case, stats, tolerate=False, beyond=False, all_variants=True)
     return [v] if v else []
